@@ -484,6 +484,113 @@ example :
      (.pinned, true)] := by
   decide
 
+/-! ### round 7: concurrent instructions (`EvC`, `stepC` of `Model/C05R.lean`)
+
+RPC handlers run in their own goroutines: `Recover` / `RecoverAll` (REST) run concurrently with the `Track` / `Untrack` the
+consensus component issues (those two are serialised among themselves since 2ba6875). The only lock is the operation
+table's: `TrackNewOperation`, `Clean`, `GetExists` are atomic, nothing else is. So an instruction is (status read →)
+`TrackNewOperation` → channel send, and the steps of different instructions interleave freely. -/
+
+/-- not interleaved, the two halves of `enqueue` are the atomic `enqueue` of the base model -/
+theorem enqueue_two_steps (cfg : Cfg) (s : State) (p : PinSpec) (typ : OpType) :
+    enqueue cfg s p typ =
+      match enqBegin s p typ with
+      | (s1, none) => (s1, .nil)
+      | (s1, some i) => enqSend cfg s1 i typ := by
+  unfold enqueue enqBegin enqSend
+  cases trackNew s p typ .queued with
+  | mk s1 r => cases r <;> cases typ <;> rfl
+
+/-- an operation replaced between its `TrackNewOperation` and its channel send is sent cancelled; the worker that receives
+    it drops it without touching the daemon or the table (`applyPinF`: `if op.Cancelled() { return true }`) -/
+theorem cancelled_send_is_skipped (cfg : Cfg) (s : State) (i : Nat) (rest : List Nat) (hq : s.pinQ = i :: rest)
+    (hc : (s.ops i).cancelled = true) (hfree : busyPin s < cfg.workers) : deqPin cfg s = { s with pinQ := rest } := by
+  unfold deqPin
+  rw [if_pos hfree, hq]
+  simp only [startCall]
+  rw [if_pos hc]
+
+/-- Track‖Untrack with the sends delayed and swapped (Track's operation is replaced before it is sent): harmless — the
+    stale pin operation is skipped, the unpin wins, the state is quiescent and matches the last instruction. -/
+theorem interleaved_track_untrack_harmless :
+    let t := runC k06Cfg initC [.trackBegin (k06Pin .recursive), .untrackBegin 0, .send 1, .send 0,
+      .base .deqPin, .base .deqUnpin, .base (.effect 1), .base (.retOk 1)]
+    t.sends = [] ∧ (t.s.ops 0).cancelled = true ∧ t.s.pinQ = [] ∧ quiescent 1 (observe t.s) = true ∧
+    t.s.daemon 0 = none ∧ matchOrError (observe t.s) 0 = true := by
+  decide
+
+/-- the full claim for the interleaved system -/
+def concurrent_full : Prop :=
+  ∀ (cfg : Cfg) (es : List EvC) (n c : Nat), c < n → (runC cfg initC es).sends = [] → (runC cfg initC es).reads = [] →
+    quiescent n (observe (runC cfg initC es).s) = true → matchOrError (observe (runC cfg initC es).s) c = true
+
+/-- It FAILS: `Recover(c)` reads pin_error, `Untrack(c)` runs to completion (the pinset drops c, the daemon unpins it), then
+    `recoverWithPinInfo` acts on the stale pin_error: the pinset has no entry, so it re-pins `api.PinCid(c)`. The end is
+    quiescent, c is not in the pinset, `Status` = unpinned, and the daemon pins c — for good (no later recover lists c). -/
+theorem concurrent_recover_untrack_breaks : ¬ concurrent_full := by
+  intro h
+  have := h k06Cfg [.trackBegin (k06Pin .direct), .send 0, .base .deqPin, .base (.retErr 0), .recRead 0,
+    .untrackBegin 0, .send 0, .base .deqUnpin, .base (.effect 1), .base (.retOk 1), .recSwitch 0, .send 0,
+    .base .deqPin, .base (.effect 2), .base (.retOk 2)] 1 0 (by decide) (by decide) (by decide) (by decide)
+  revert this
+  decide
+
+/-- the same through `RecoverAll`: its listing is a snapshot; an `Untrack` that completes between the listing and the entry
+    of that cid makes the loop re-pin a removed cid. (`recoverAllR_invariant` / `recoverAll_covers` assume only worker and
+    daemon activity in between: the hypothesis `internalOnly` is necessary.) -/
+theorem recoverAll_stale_listing_breaks :
+    let s0 := run k06Cfg init [.track (k06Pin .direct), .deqPin, .retErr 0]
+    let s1 := run k06Cfg (recoverAllR k06Cfg s0 true [([.untrack 0, .deqUnpin, .effect 1, .retOk 1], 0)]).1
+      [.deqPin, .effect 2, .retOk 2]
+    quiescent 1 (observe s1) = true ∧ s1.shared 0 = none ∧ statusOf s1 0 = .unpinned ∧
+    s1.daemon 0 = some (.recursive, 0) ∧ matchOrError (observe s1) 0 = false := by
+  decide
+
+/-- what holds without the atomicity assumption: executed atomically (each first half immediately followed by its second
+    half, each read by its switch) the interleaved system is the base model, for which all theorems above hold -/
+theorem atomic_track_is_base (cfg : Cfg) (t : StateC) (p : PinSpec) (hs : t.sends = []) :
+    (stepC cfg (stepC cfg t (.trackBegin p)) (.send 0)).s = step cfg t.s (.track p) := by
+  unfold step stepRet
+  by_cases hk : p.kind = .here
+  · simp only [stepC, hk, if_true, pushSend, track, enqueue, enqBegin]
+    cases hn : trackNew { t.s with shared := upd t.s.shared p.cid (some p), failed := upd t.s.failed p.cid false } p .pin .queued with
+    | mk s1 r =>
+      cases r with
+      | none => simp [hs]
+      | some i => simp [hs, enqSend]
+  · simp only [stepC, hk, if_false]
+    have : (stepC cfg { t with s := step cfg t.s (.track p) } (.send 0)) = { t with s := step cfg t.s (.track p) } := by
+      simp [stepC, hs]
+    simp only [stepC, hs] at this ⊢
+    simp [step, stepRet]
+
+/-! ### round 7: Shutdown, timeouts, priorities
+
+This version of the tracker has no pin / unpin timeout of its own (no `PinTimeout`, no `context.WithTimeout` in
+`stateless.go`: an IPFS call ends when the connector's own timeout or the operation's cancellation ends it — the `retErr` /
+`reap` steps) and a single `pinCh` (no priority channel). `Shutdown` cancels `spt.ctx`; every operation's context derives
+from it (`NewOperationTracker(ctx, …)`, `TrackNewOperation`: `trace.NewContext(opt.ctx, …)`), the workers return on
+`<-spt.ctx.Done()`, and `spt.wg` is never `Add`ed to, so `Shutdown` does not wait for them. -/
+
+/-- after `Shutdown` every operation is cancelled, every parked call has left with its context error, and no completion
+    of any call — daemon effect, nil answer, error answer — changes the state any more: no worker write after close;
+    operations still in the channels stay there (or are skipped: `cancelled_send_is_skipped`). -/
+theorem shutdown_cancels_all (cfg : Cfg) (s : State) (hr : Reachable cfg s) :
+    (shutdown s).calls = [] ∧
+    ∀ i, i < s.nextId → ((shutdown s).ops i).cancelled = true ∧ effect (shutdown s) i = shutdown s ∧
+      retOk (shutdown s) i = shutdown s ∧ retErr (shutdown s) i = shutdown s := by
+  have hops : ∀ i, i < s.nextId → ((shutdown s).ops i).cancelled = true := by
+    intro i hi
+    simp [shutdown, reapAll, cancelAll, hi]
+  refine ⟨?_, fun i hi => ⟨hops i hi, dead_call_inert _ i (hops i hi)⟩⟩
+  simp only [shutdown, reapAll]
+  rw [List.filter_eq_nil_iff]
+  intro k hk
+  have hlt := (inv_reachable hr).callLt k hk
+  simp only [alive, cancelAll]
+  rw [if_pos hlt]
+  simp
+
 /-! ### The anchored functions still read as the model was transcribed (regenerated from /repo on every run) -/
 
 theorem gen_source_Stateless_f_New : Gen.Stateless.f_New = Expected.Stateless.f_New := rfl
